@@ -4,7 +4,7 @@
    Trees are generic records (identity, kind, scalar fields, child fields).
    ast_hyp t: every record of t is an instance of its kind in the schema that
    gofacts generates from the struct types of package ast (fields in order,
-   children of the kinds the Go types admit, the hand-listed never-nil fields
+   children of the kinds the Go types allow, the hand-listed never-nil fields
    present).  ast_clone / ast_walk: the model of CloneNode and Walk driven by
    the selectors that gofacts extracts from the case clauses of clone.go and
    walk.go. *)
